@@ -405,3 +405,37 @@ def _call_keep(self, td, meth, args):
 
 
 Impl6.call = _call_keep
+
+
+def replay_events6(drv, texts, scratch: Path):
+    """--replay / corpus: run a fixed C06 event list on both sides -> [(text, kind, impl answer, model answer)]"""
+    impl = Impl6(scratch)
+    fns, addr_of = leaf_functions()
+    by_oid = {addr_of[id(f)][0] % 2: f for f in fns}
+    evs = []
+    for t in texts:
+        p = parse_sx(t)
+        if p[0] == "read":
+            args = [by_oid[a[1] % 2] if isinstance(a, list) else a for a in p[3:]]
+            evs.append(("read", p[1], p[2], args))
+        elif p[0] == "rebind":
+            evs.append(("rebind", p[1], str(p[2]), p[3]))
+        else:
+            evs.append(H5.sx_to_ev(t))
+    rows = []
+    for ev in evs:
+        if ev[0] == "read":
+            try:
+                rd = impl.read(ev)
+            except Exception as e:  # noqa
+                rd = {"kind": "error:" + type(e).__name__, "result": None, "stale": None, "twin": None}
+            if ev[2] == 4 and rd["result"] is not None and rd["kind"] != "hit":
+                impl.results.add(len(impl.nodes))
+                impl.nodes.append(impl._last_out)
+                rd["result"] = impl.canon(impl.nodes[ev[1]], 4, impl._last_out)
+            rows.append(("read", rd))
+        else:
+            rows.append(("view", [impl.run(ev), impl.view()]))
+    ans = parse_sx(drv.ask("(c06.run " + " ".join(ev_sx6(e, addr_of) for e in evs) + ")"))
+    impl.ctx.clear()
+    return evs, rows, ans, addr_of
